@@ -15,7 +15,7 @@ FIX = dict(FixA=True, FixH=True, OrdCurrent="Acquire")
 C_BASE = dict(NT=2, SrcLen=3, Start=0, Kind="slice", MaxOps=2, OwnerOps=0, Sizes={1, 2, 4}, TakeSet={9},
               OpKinds={"next", "nextid", "chunk", "bnew", "bnext"}, MOD=64, Mutant="")
 T_BASE = dict(NT=2, SrcLen=2, Hint="exact", PanicAt=0, Revive=0, MaxOps=2, OwnerOps=0, Sizes={1, 2, 3}, TakeSet={9},
-              OpKinds={"next", "nextid", "chunk", "bnew", "bnext"}, MOD=64, Mutant="", **FIX)
+              OpKinds={"next", "nextid", "chunk", "bnew", "bnext"}, MOD=64, Mutant="", Scenario="", **FIX)
 C_INV = ["Inv_C01", "Inv_C02", "Inv_C03", "Inv_C04", "Inv_C05", "Inv_C06", "Inv_C08", "Inv_C10", "Inv_C11", "Inv_C12",
          "Inv_C19", "Inv_NoWrap", "Inv_C09_LockFree", "NoFlags"]
 T_INV = ["Inv_C01", "Inv_C02", "Inv_C03", "Inv_C04", "Inv_C05", "Inv_C06", "Inv_C07_NoRace", "Inv_C07_Mutex", "Inv_C08",
@@ -142,6 +142,12 @@ def gen_ticket(tier, seed, sid0):
     c3 = cfg(T_BASE, NT=3, SrcLen=3, MaxOps=2, Sizes={2, 3}, OpKinds={"next", "bnew", "bnext", "chunk", "skip"})
     g3 = generate("gent_sim3", "Ticket", c3, "sim", n=(300 if tier == "quick" else 5000), depth=200, seed=seed % 100000 + 7)
     beh3 = list(g3["behaviours"])
+    # fixed three-party programs (a pull in flight, a pull queued behind it, a skip or two queries): simulation
+    for scn in ("tri_buf_skip", "tri_chunk_skip", "tri_query", "tri_hasmore"):
+        ct = cfg(T_BASE, NT=3, SrcLen=4, MaxOps=2, Sizes={1, 2, 3, 4},
+                 OpKinds={"next", "nextid", "chunk", "bnew", "bnext", "skip", "len", "hasmore"}, Scenario=scn)
+        gs = generate("gent_" + scn, "Ticket", ct, "sim", n=(250 if tier == "quick" else 4000), depth=150, seed=seed % 100000 + 11)
+        beh3 += [dict(b, _len=4) for b in gs["behaviours"]]
     meta = {"sim_behaviours": len(beh), "sim3_behaviours": len(beh3)}
     if tier != "quick":
         c1 = cfg(T_BASE, SrcLen=1, MaxOps=1, Sizes={2}, OpKinds={"next", "chunk", "skip", "hasmore"})
@@ -156,7 +162,7 @@ def gen_ticket(tier, seed, sid0):
         out.append(scenario_of(hrec, sid0 + len(out), kinds[i % len(kinds)], 2, 2,
                                {"hint": "exact", "tag": {"suite": "gen_ticket", "beh": i}}))
     for i, hrec in enumerate(beh3):
-        out.append(scenario_of(hrec, sid0 + len(out), kinds[i % len(kinds)], 3, 3,
+        out.append(scenario_of(hrec, sid0 + len(out), kinds[i % len(kinds)], hrec.get("_len", 3), 3,
                                {"hint": "exact", "tag": {"suite": "gen_ticket3", "beh": i}}))
     for i, hrec in enumerate(beh1):
         out.append(scenario_of(hrec, sid0 + len(out), kinds[i % 2], 1, 2,
@@ -191,6 +197,11 @@ def rand_suite(tier, seed, sid0):
         for j in range(max(10, per // 6)):
             sc = gen.skip_storm(rng, sid0 + len(out), kind)
             sc["tag"] = {"suite": "skip_storm"}
+            out.append(sc)
+    for kind in ALL:
+        for j in range(per // 2 if kind in TICKET else max(10, per // 6)):
+            sc = gen.tri(rng, sid0 + len(out), kind)
+            sc["tag"] = {"suite": "tri_conc"}
             out.append(sc)
     # elements that own heap memory: a leaked element is a leaked allocation (sequential and concurrent)
     for kind in ("vec_h", "iter_h"):
